@@ -144,6 +144,8 @@ class Fn:
         self.globals = opts.get("globals", {})
         self.notes = []
         self.statics = []
+        self.rowsets = []        # members that are arrays of rows (List (List Int)), read-only
+        self.loop_assigned = set()
         self.setters = []
         self.owner = None        # struct parameter whose member is being registered (entry parameters are grouped per C parameter)
         self.plist = []
@@ -248,8 +250,21 @@ class Fn:
             # element of an array of pointers: info->row[k]  -> the region info_row (the caller passes that row)
             b = self.skip(n["inner"][0])
             if b.get("kind") == "MemberExpr":
-                reg = self.member_region(b)
                 it, ic, ie = self.rvalue(n["inner"][1])
+                p_, path_ = self.member_chain(b)
+                if p_ is None:
+                    fail("%s: array of pointers that is not a member of a struct parameter" % self.name)
+                fld = lname("%s_%s" % (p_, "_".join(path_)))
+                used = set(re.findall(r"\bs\.(\w+)", it))
+                if fld in self.rowsets or (used & self.loop_assigned):
+                    # the selected row varies (the index is modified inside a loop): the member is an array of rows, read-only
+                    if fld in self.regions:
+                        fail("%s: %s is used both as one selected row and as an array of rows" % (self.name, fld))
+                    if fld not in self.rowsets:
+                        self.rowsets.append(fld)
+                        self.owned(p_, self.add_entry, fld, "List (List Int)")
+                    return ("#%s#%s" % (fld, it), "0", ic + ["0 ≤ %s ∧ %s < s.%s.length" % (it, it, fld)], ie)
+                reg = self.member_region(b)
                 note = "region `%s` is the row the C code selects with `[%s]`" % (reg, it)
                 if note not in self.notes:
                     self.notes.append(note)
@@ -340,6 +355,16 @@ class Fn:
                     reg = self.owned(pn, self.region, "%s_%s" % (pn, fld))
                     it, ic, ie = self.rvalue(b["inner"][1])
                     return ("elem", reg, it, ic + [self.inb(reg, it)], ie, ty)
+            if b.get("kind") == "ArraySubscriptExpr":
+                bb = self.skip(b["inner"][0])
+                p2, path2 = self.member_chain(bb) if bb.get("kind") == "MemberExpr" else (None, None)
+                if p2 is not None:
+                    # info->arr[i].fld : the region info_arr_fld
+                    if ty is None:
+                        fail("%s: member %s->%s[].%s is not an integer" % (self.name, p2, ".".join(path2), fld))
+                    reg = self.owned(p2, self.region, "%s_%s_%s" % (p2, "_".join(path2), fld))
+                    it, ic, ie = self.rvalue(b["inner"][1])
+                    return ("elem", reg, it, ic + [self.inb(reg, it)], ie, ty)
             p, path = self.member_chain(n)
             if p is not None:
                 if ty is None:
@@ -348,17 +373,24 @@ class Fn:
             fail("%s: member access %s" % (self.name, fld))
         fail("%s: unsupported lvalue %s" % (self.name, k))
 
+    def rt(self, r):
+        """Lean term of a region: a state field, or (read-only) one row of an array of rows `#field#index`"""
+        if r.startswith("#"):
+            _, f, ix = r.split("#", 2)
+            return "(s.%s.getD (Int.toNat (%s)) [])" % (f, ix)
+        return "s.%s" % r
+
     def inb(self, r, i):
         if i == "0" and not r.startswith("@"):
-            return "0 < s.%s.length" % r
+            return "0 < %s.length" % self.rt(r)
         if r.startswith("@"):
             return "0 ≤ %s ∧ %s < (%s).length" % (i, i, self.globals[r[1:]])
-        return "0 ≤ %s ∧ %s < s.%s.length" % (i, i, r)
+        return "0 ≤ %s ∧ %s < %s.length" % (i, i, self.rt(r))
 
     def read(self, r, i):
         if r.startswith("@"):
             return "(Int.ofNat ((%s).getD (Int.toNat (%s)) 0))" % (self.globals[r[1:]], i)
-        return "(s.%s.getD (Int.toNat (%s)) 0)" % (r, i)
+        return "(%s.getD (Int.toNat (%s)) 0)" % (self.rt(r), i)
 
     # ---------------------------------------------------------------- integer expressions -> (term, checks, effects)
     def rvalue(self, n):
@@ -441,6 +473,19 @@ class Fn:
             if ea or eb:
                 fail("%s: side effect inside ?:" % self.name)
             return "(if %s then %s else %s)" % (c, a, b), cc + ["¬(%s) ∨ (%s)" % (c, x) for x in ca] + ["(%s) ∨ (%s)" % (c, x) for x in cb], ce
+        if k == "CallExpr":
+            callee = self.skip(n["inner"][0])
+            nm = callee.get("referencedDecl", {}).get("name")
+            if nm in ("strlen", "HDstrlen", "__builtin_strlen"):
+                # length of the NUL-terminated string that starts at the pointer: number of cells before the first 0 (ub when there is none)
+                r, i, c, e = self.pexpr(n["inner"][1])
+                if r.startswith("@"):
+                    fail("%s: strlen of a global" % self.name)
+                if e:
+                    fail("%s: side effect in strlen argument" % self.name)
+                rest = "(%s.drop (Int.toNat (%s)))" % (self.rt(r), i)
+                return "(Int.ofNat (%s.takeWhile (· ≠ 0)).length)" % rest, c + ["0 ≤ %s ∧ (0 : Int) ∈ %s" % (i, rest)], []
+            fail("%s: call of %s inside an expression" % (self.name, nm))
         if k == "UnaryExprOrTypeTraitExpr" and n.get("name") == "sizeof":
             at = n.get("argType", {}).get("qualType")
             w = int_width(at) if at else None
@@ -568,6 +613,8 @@ class Fn:
     def assign(self, lv, term, ind):
         if lv[0] == "scalar":
             return [self.upd(lv[1], term, ind)]
+        if lv[1].startswith("#") or lv[1].startswith("@"):
+            fail("%s: store into a row of an array of rows / a global" % self.name)
         return [self.upd(lv[1], "s.%s.set (Int.toNat (%s)) (%s)" % (lv[1], lv[2], term), ind)]
 
     def effects(self, effs, ind, also=()):
@@ -796,11 +843,29 @@ class Fn:
             if ed or es or e:
                 fail("%s: side effect in memcpy arguments" % self.name)
             out = self.checks(cd + cs + c, ind)
-            out += self.checks(["(0 : Int) ≤ %s" % t, "0 ≤ %s ∧ %s + %s ≤ s.%s.length" % (idd, idd, t, rd), "0 ≤ %s ∧ %s + %s ≤ s.%s.length" % (is_, is_, t, rs_)], ind)
+            out += self.checks(["(0 : Int) ≤ %s" % t, "0 ≤ %s ∧ %s + %s ≤ s.%s.length" % (idd, idd, t, rd), "0 ≤ %s ∧ %s + %s ≤ %s.length" % (is_, is_, t, self.rt(rs_))], ind)
             if rd == rs_:
                 out += self.checks(["%s + %s ≤ %s ∨ %s + %s ≤ %s ∨ %s = 0" % (idd, t, is_, is_, t, idd, t)], ind)
-            out.append(self.upd(rd, "(s.%s.take (Int.toNat (%s))) ++ ((s.%s.drop (Int.toNat (%s))).take (Int.toNat (%s))) ++ (s.%s.drop (Int.toNat (%s + %s)))"
-                                % (rd, idd, rs_, is_, t, rd, idd, t), ind))
+            if rd.startswith("#") or rd.startswith("@"):
+                fail("%s: memcpy into a row of an array of rows / a global" % self.name)
+            out.append(self.upd(rd, "(s.%s.take (Int.toNat (%s))) ++ ((%s.drop (Int.toNat (%s))).take (Int.toNat (%s))) ++ (s.%s.drop (Int.toNat (%s + %s)))"
+                                % (rd, idd, self.rt(rs_), is_, t, rd, idd, t), ind))
+            return out
+        if nm in ("strcpy", "HDstrcpy", "__builtin_strcpy"):
+            # copies the string INCLUDING its terminating NUL
+            rd, idd, cd, ed = self.pexpr(n["inner"][1])
+            rs_, is_, cs, es = self.pexpr(n["inner"][2])
+            if ed or es:
+                fail("%s: side effect in strcpy arguments" % self.name)
+            if rd.startswith("#") or rd.startswith("@"):
+                fail("%s: strcpy into a row of an array of rows / a global" % self.name)
+            src = "(%s.drop (Int.toNat (%s)))" % (self.rt(rs_), is_)
+            ln = "(Int.ofNat (%s.takeWhile (· ≠ 0)).length + 1)" % src
+            out = self.checks(cd + cs, ind)
+            out += self.checks(["0 ≤ %s ∧ (0 : Int) ∈ %s" % (is_, src), "0 ≤ %s ∧ %s + %s ≤ s.%s.length" % (idd, idd, ln, rd)], ind)
+            if rd == rs_:
+                fail("%s: strcpy within one region" % self.name)
+            out.append(self.upd(rd, "(s.%s.take (Int.toNat (%s))) ++ (%s.take (Int.toNat %s)) ++ (s.%s.drop (Int.toNat (%s + %s)))" % (rd, idd, src, ln, rd, idd, ln), ind))
             return out
         fail("%s: call of %s" % (self.name, nm))
 
@@ -1031,6 +1096,16 @@ class Fn:
                 self.region(nm)          # static local array: an entry parameter
             elif nm not in self.ptr_is_param_region and nm not in self.flat and lname(nm) not in self.local_regions:
                 self.scalar(nm, entry=(nm in self.statics))
+        def loops_(n, inloop):
+            k = n.get("kind")
+            here = inloop or k in ("ForStmt", "WhileStmt", "DoStmt")
+            if here and ((k == "BinaryOperator" and n.get("opcode") == "=") or k == "CompoundAssignOperator" or (k == "UnaryOperator" and n.get("opcode") in ("++", "--"))):
+                l = self.skip(n["inner"][0])
+                if l.get("kind") == "DeclRefExpr":
+                    self.loop_assigned.add(lname(l["referencedDecl"]["name"]))
+            for c in n.get("inner", []):
+                loops_(c, here)
+        loops_(body, False)
         self._rets = []
         self.scan_flags(body)
         last = body.get("inner", [None])[-1] if body.get("inner") else None
@@ -1053,6 +1128,8 @@ class Fn:
             st.append("  %s : Int%s" % (f, "" if f in given else " := 0"))
         for f in self.bools:
             st.append("  %s : Bool" % f)
+        for f in self.rowsets:
+            st.append("  %s : List (List Int)" % f)
         for f in self.regions + [r for r in self.local_regions if r not in self.regions]:
             st.append("  %s : List Int%s" % (f, "" if f in given else " := []"))
         st += ["  ub : Bool := false", "  oof : Bool := false", "  ret : Int := 0"]
